@@ -20,6 +20,10 @@ pub mod world;
 pub mod spec;
 pub mod h_kernels;
 pub mod h_f1;
+pub mod h_c02;
+pub mod h_c16;
+pub mod h_agree;
+pub mod h_probe;
 
 pub mod registry;
 pub mod kf { include!("gen/kf.rs"); }
